@@ -1186,7 +1186,7 @@ void judgeRunImpl(const Ctx& c, const vector<size_t>& coords, const RunResult& r
   bool inactive = !constrained || c.policy == AutoParameter::CONSTRAINTS_IGNORE || !r.touched
     // BFGS is the one optimiser with bound handling of its own (its direction is projected onto the box, Lo_/Up_): started on a bound with the
     // minimiser strictly inside it must still arrive (after C10-s14).  The others rely on AutoParameter clipping and may stall along a bound.
-    || (c.kind == BFGS && c.box.startOnBound);
+    || (c.kind == BFGS && c.box.startOnBound && c.policy == AutoParameter::CONSTRAINTS_AUTO); // keep: a blocked step raises and ends the run (thorough seed 1: one such bfgs:keep run)
   if (c.pb.quad && inactive && c.generous)
   {
     if (!r.tolReached)
